@@ -659,7 +659,7 @@ pub fn run(tier: &str, seed: u64, out: &mut Out) {
     let (n_plain, n_dup, n_collide, n_comp, comp_seeds) = match tier {
         "thorough" => (800, 100, 60, 24, 3),
         "search" => (6000, 0, 100, 60, 3),
-        _ => (90, 10, 8, 3, 2),
+        _ => (75, 10, 8, 3, 2),
     };
     for i in 0..n_plain {
         let max_live = if i % 5 == 0 { 2 } else { 8 };
